@@ -761,8 +761,11 @@ func zzC19(t *testing.T, res *zzResult, rng *rand.Rand, work, tier string) {
 		}
 		res.Counters["violations_total"]++
 	}
-	pats := []string{`^prio/`, `^slow\.`, `\.raw$`, `\.(nc|cdf)$`, `^dir/sub/`, `_b1\.`, `^x`}
-	names := []string{"prio/a.001.dat", "prio/sub/b.raw", "slow.20200101.nc", "slowly.dat", "dir/sub/c.cdf", "dir/d.raw", "e_b1.20.nc", "x.dat", "xs/y.dat", "plain", "plain.dat", "dir/sub/deep/z.b1.raw", "q.raw", "nodots/file"}
+	// (some patterns match the TEXT of other patterns - "dir" matches "^dir/sub/" - as a
+	// catch-all listed after specific rules does; a group can fall back to its tag's text)
+	pats := []string{`^prio/`, `^slow\.`, `\.raw$`, `\.(nc|cdf)$`, `^dir/sub/`, `_b1\.`, `^x`, `dir`, `prio`, `sgp`, `^sgp.*\.raw$`, `^sgp/raw/`}
+	names := []string{"prio/a.001.dat", "prio/sub/b.raw", "slow.20200101.nc", "slowly.dat", "dir/sub/c.cdf", "dir/d.raw", "e_b1.20.nc", "x.dat", "xs/y.dat", "plain", "plain.dat", "dir/sub/deep/z.b1.raw", "q.raw", "nodots/file",
+		"sgp/raw/README", "sgpmetE13.00.20240101.raw", "sgp.x.raw", "sgp/raw/data.bin", "dir/sub/readme", "prio/nodot", "dir/readme"}
 	for i := 0; i < n; i++ {
 		res.Evaluations++
 		ntags := 1 + rng.Intn(4)
@@ -776,6 +779,26 @@ func zzC19(t *testing.T, res *zzResult, rng *rand.Rand, work, tier string) {
 		var tags []tagSpec
 		tags = append(tags, tagSpec{Pattern: "DEFAULT", Priority: rng.Intn(3), Order: []string{"fifo", "none"}[rng.Intn(2)], Delete: rng.Intn(2) == 0, Method: "http"})
 		perm := rng.Perm(len(pats))
+		if rng.Intn(3) == 0 {
+			// "specific rules first, catch-all last": the catch-all's pattern also matches the specific rule's text
+			pair := [][2]string{{`^sgp.*\.raw$`, `sgp`}, {`^sgp/raw/`, `sgp`}, {`^dir/sub/`, `dir`}, {`^prio/`, `prio`}}[rng.Intn(4)]
+			ntags = 3 + rng.Intn(2)
+			var first []int
+			for _, want := range pair {
+				for k, pt := range pats {
+					if pt == want {
+						first = append(first, k)
+					}
+				}
+			}
+			rest := []int{}
+			for _, k := range perm {
+				if k != first[0] && k != first[1] {
+					rest = append(rest, k)
+				}
+			}
+			perm = append(first, rest...)
+		}
 		for j := 1; j < ntags; j++ {
 			tags = append(tags, tagSpec{Pattern: pats[perm[j-1]], Priority: 1 + rng.Intn(5), Order: []string{"fifo", "lifo", "none"}[rng.Intn(3)], Delete: rng.Intn(2) == 0, Method: []string{"http", "http", "disk"}[rng.Intn(3)]})
 		}
@@ -786,7 +809,7 @@ func zzC19(t *testing.T, res *zzResult, rng *rand.Rand, work, tier string) {
 		src := map[string]any{"name": "s", "out-dir": filepath.Join(work, "out"), "log-dir": filepath.Join(work, "log"), "threads": 2,
 			"target": map[string]any{"name": "t", "http-host": "127.0.0.1:1"}, "tags": tj}
 		if rng.Intn(3) == 0 {
-			src["group-by"] = []string{`^([^/]+)/`, `^([a-z]+)`}[rng.Intn(2)]
+			src["group-by"] = []string{`^([^/]+)/`, `^([a-z]+)`, `.`}[rng.Intn(3)] // "." is what a managed client is given
 		}
 		b, _ := json.Marshal(src)
 		conf := &sts.SourceConf{}
@@ -820,10 +843,33 @@ func zzC19(t *testing.T, res *zzResult, rng *rand.Rand, work, tier string) {
 				}
 			}
 			res.Counters["names_checked"]++
+			// what the sender's construction (tags per GROUP) gives: the group is the
+			// group-by capture, or - when that is empty or the whole name - the tag found
+			// for the name; the tag is the first one that IS the group or matches it
+			byGroup := func(g string) int {
+				for j := 1; j < len(tags); j++ {
+					if tags[j].Pattern == g {
+						return j
+					}
+					if ok, _ := regexpMatch(tags[j].Pattern, g); ok {
+						return j
+					}
+				}
+				return 0
+			}
+			group := ""
+			if m := app.conf.GroupBy.FindStringSubmatch(name); len(m) > 1 && m[1] != "" && m[1] != name {
+				group = m[1]
+			} else if j := byGroup(name); j > 0 {
+				group = tags[j].Pattern
+			}
+			wantByGroup := byGroup(group)
 			if got != want {
 				fp := "tag-lookup-mismatch"
-				// the look-up goes through the file's GROUP (group-by match), not its name
-				fp = "tag-looked-up-by-group-not-name"
+				if got == wantByGroup {
+					// known: the look-up goes through the file's GROUP, not its name
+					fp = "tag-looked-up-by-group-not-name"
+				}
 				viol(i, "tag-applies-to-matching-names", fp, fmt.Sprintf("%q: the running sender applies tag %q, but the first tag whose pattern matches the name is %q (tags %v, group-by %v)", name, tags[got].Pattern, tags[want].Pattern, tags, src["group-by"]), sc)
 				continue
 			}
